@@ -14,7 +14,7 @@
 (*   err CAS), WRelease (rt.l section deleting the reader), WNotifyLock      *)
 (*   (t.l.Lock), WNotifyOne (dependencies.Add(-1), push), WNotifyDone        *)
 (*   (executed = true, Unlock, outstanding.Done), Stop, Wait*.               *)
-(* The dependency counter keeps its MaxDeps offset as in the code.           *)
+(* The dependency counter keeps its offset as in the code (Prime).           *)
 EXTENDS Integers, Sequences, FiniteSets, TLC
 
 CONSTANTS N,         \* number of tasks handed to Run (ids 1..N = queue order)
@@ -22,7 +22,15 @@ CONSTANTS N,         \* number of tasks handed to Run (ids 1..N = queue order)
           NW,        \* workers (concurrency)
           MaxDeps,   \* maxDependencies
           MaxFail,   \* at most this many closures return an error
-          Shapes     \* candidate key assignments: set of [1..N -> [Keys -> {"n","r","w"}]]
+          Shapes,    \* candidate key assignments: set of [1..N -> [Keys -> {"n","r","w"}]]
+          OriginalOffset  \* TRUE: the dependency counter is primed as originally coded (see PrimeAsOriginallyCoded)
+
+\* Value the dependency counter is primed with while Run registers the dependencies.  The repaired code uses one more
+\* than maxDependencies, so a task with exactly maxDependencies dependencies that all finish during the registration
+\* cannot reach zero early (and be pushed by the last notifier and again by RunFinish).
+Prime                  == MaxDeps + 1
+PrimeAsOriginallyCoded == MaxDeps
+Offset == IF OriginalOffset THEN PrimeAsOriginallyCoded ELSE Prime
 
 Tasks == 1..N
 Wk    == 1..NW
@@ -63,7 +71,7 @@ RunBegin ==
   /\ rpc = "idle" /\ wait = "no" /\ nxt <= N
   /\ rt' = nxt /\ rpc' = "keys"
   /\ outstanding' = outstanding + 1
-  /\ deps' = [deps EXCEPT ![nxt] = MaxDeps]
+  /\ deps' = [deps EXCEPT ![nxt] = Offset]
   /\ rtodo' = {k \in Keys : Perm(nxt, k) # "n"} /\ rdeps' = {}
   /\ UNCHANGED <<keysOf, nodes, reading, readers, blocked, executed, lock, nxt, rkey, rlt, rreaders, execQ, closed,
                  wpc, wt, wset, err, stopCalled, wait, waitErr, runs, ended, failedT, pushes>>
@@ -104,7 +112,7 @@ RunKeyDone ==
 \* difference := maxDependencies - len(dependencies); if t.dependencies.Add(-difference) > 0 { return }; executable <- t
 RunFinish ==
   /\ rpc = "keys" /\ rtodo = {}
-  /\ LET d == deps[rt] - (MaxDeps - Cardinality(rdeps)) IN
+  /\ LET d == deps[rt] - (Offset - Cardinality(rdeps)) IN
        /\ deps' = [deps EXCEPT ![rt] = d]
        /\ IF d > 0 THEN UNCHANGED <<execQ, pushes>> ELSE Push(rt)
   /\ rpc' = "idle" /\ nxt' = nxt + 1
